@@ -531,6 +531,9 @@ type AdmitCase struct {
 	HasCA     bool `json:"has_ca"`
 	KeyMatch  bool `json:"key_match"`
 	Self      bool `json:"self"`
+	// the same peer, with the same certificate, went through admission once before on this node, while the
+	// validator set of assembly time (in which the removed authority still was one) was in force
+	Prior bool `json:"prior,omitempty"`
 }
 
 func allAdmitCases() []AdmitCase {
@@ -544,7 +547,8 @@ func allAdmitCases() []AdmitCase {
 						for _, hc := range bs {
 							for _, km := range bs {
 								for _, sf := range bs {
-									out = append(out, AdmitCase{r, ca, v, nv, sg, hc, km, sf})
+									out = append(out, AdmitCase{r, ca, v, nv, sg, hc, km, sf, false})
+									out = append(out, AdmitCase{r, ca, v, nv, sg, hc, km, sf, true})
 								}
 							}
 						}
@@ -613,40 +617,55 @@ func runAdmitCase(idx int, c AdmitCase) (string, []MonitorHit, bool) {
 	pp := oldSet
 	conf := viper.New()
 	conf.Set("non_validator_node_auth", c.NonValAuth)
-	srv := mkSwitch(server, server.PubKey(), "")
-	srv.SetRefuseListFilter(func(pk crypto.PubKey) error {
-		if c.Refused && pk.Equals(client.PubKey()) {
-			return fmt.Errorf("refused")
-		}
-		return nil
-	})
+	var auth func(*p2p.NodeInfo) error
 	if c.AuthByCA {
-		srv.SetAuthByCA(gemmill.VerifAuthByCA(conf, &pp))
+		auth = gemmill.VerifAuthByCA(conf, &pp) // one closure for the life of the node
 	}
-	pp = curSet // the validator set changed after the node was assembled
-	cli := mkSwitch(client, announced, signed)
-	a, b := net.Pipe()
+	mkSrv := func() *p2p.Switch {
+		srv := mkSwitch(server, server.PubKey(), "")
+		srv.SetRefuseListFilter(func(pk crypto.PubKey) error {
+			if c.Refused && pk.Equals(client.PubKey()) {
+				return fmt.Errorf("refused")
+			}
+			return nil
+		})
+		if auth != nil {
+			srv.SetAuthByCA(auth)
+		}
+		return srv
+	}
 	type res struct {
 		p   *p2p.Peer
 		err error
 	}
-	cr := make(chan res, 1)
-	go func() { p, err := cli.AddPeerWithConnection(pipeConn{b}, true); cr <- res{p, err} }()
-	var sp *p2p.Peer
-	var serr error
-	done := make(chan struct{})
-	go func() { sp, serr = srv.AddPeerWithConnection(pipeConn{a}, false); close(done) }()
-	select {
-	case <-done:
-	case <-time.After(20 * time.Second):
-		hit("handshake-hung", "admission did not finish")
+	handshake := func() (*p2p.Peer, error) {
+		srv := mkSrv()
+		cli := mkSwitch(client, announced, signed)
+		a, b := net.Pipe()
+		cr := make(chan res, 1)
+		go func() { p, err := cli.AddPeerWithConnection(pipeConn{b}, true); cr <- res{p, err} }()
+		var sp *p2p.Peer
+		var serr error
+		done := make(chan struct{})
+		go func() { sp, serr = srv.AddPeerWithConnection(pipeConn{a}, false); close(done) }()
+		select {
+		case <-done:
+		case <-time.After(20 * time.Second):
+			hit("handshake-hung", "admission did not finish")
+			a.Close()
+			b.Close()
+			<-done
+		}
 		a.Close()
 		b.Close()
-		<-done
+		<-cr
+		return sp, serr
 	}
-	a.Close()
-	b.Close()
-	<-cr
+	if c.Prior {
+		handshake() // whatever it decided then must not matter now
+	}
+	pp = curSet // the validator set changed after the node was assembled
+	sp, serr := handshake()
 	admitted := serr == nil && sp != nil
 	// monitor: the property's rule, from the scenario itself
 	isVal := curSet.HasAddress(announced.Address())
@@ -784,7 +803,7 @@ func engAdmit(args []string) error {
 		return err
 	}
 	meta := NewMeta("admit", c.Seed)
-	meta.Rule = "case = one admission attempt between two real Switches over a pipe (secret-connection handshake, node-info exchange, CA check against a validator set that changed after assembly); the configuration matrix refuse-list x auth_by_ca x validator membership x non_validator_node_auth x signature kind (current CA, removed CA, non-CA validator, invalid, malformed) x CA present x announced-key match x self is enumerated completely in the thorough tier and sampled in the quick tier; every case is distinct and non-trivial"
+	meta.Rule = "case = one admission attempt between two real Switches over a pipe (secret-connection handshake, node-info exchange, CA check against a validator set that changed after assembly; in half of the cases the same peer with the same certificate had been through admission once before, under the earlier validator set, so that anything remembered from then would show); the configuration matrix refuse-list x auth_by_ca x validator membership x non_validator_node_auth x signature kind (current CA, removed CA, non-CA validator, invalid, malformed) x CA present x announced-key match x self x earlier admission is enumerated completely in the thorough tier and sampled in the quick tier; every case is distinct and non-trivial"
 	all := allAdmitCases()
 	var cases []AdmitCase
 	if c.Replay != "" {
